@@ -451,21 +451,43 @@ static int cmd_sample(const char *path, uint64_t seed, unsigned per, unsigned ma
 }
 
 /* ----------------------------------------------------------------- hostile */
-/* each case {id, bytes[, fixcrc]} is loaded in a forked child, so that a crash is an observation, not the end of the run */
+/* Each case {id, bytes[, fixcrc]} is loaded in a forked worker, so that a crash is an observation and not the end
+ * of the run.  A worker goes through the cases one after the other and reports on a pipe ("B k" before, "R k v"
+ * after each load); when it dies, the case it had begun is the one that crashed, its stderr holds the sanitizer
+ * report, and a new worker continues behind it. */
+typedef struct { char *id; uint8_t *b; size_t n; } HCase;
+
+static void first_report(const char *errp, char *first, size_t cap) {
+    first[0] = 0;
+    FILE *ef = fopen(errp, "r");
+    if (!ef) return;
+    char l[512];
+    while (fgets(l, sizeof l, ef)) {
+        if (strstr(l, "ERROR:") || strstr(l, "runtime error")) {
+            size_t k = 0;
+            for (char *q = l; *q && *q != '\n' && k < cap - 1; q++) if (*q != '"' && *q != '\\') first[k++] = *q;
+            first[k] = 0;
+            break;
+        }
+    }
+    fclose(ef);
+}
+
 static int cmd_hostile(const char *cases, const char *workdir, const char *trace) {
     size_t fl;
     char *txt = (char *)read_all(cases, &fl);
     txt[fl] = 0;
     g_trace = (trace && trace[0] && strcmp(trace, "-")) ? trace : NULL;
+    size_t cap = 1024, nc = 0;
+    HCase *hc = malloc(cap * sizeof *hc);
     char *save = NULL;
     for (char *line = strtok_r(txt, "\n", &save); line; line = strtok_r(NULL, "\n", &save)) {
         cJSON *j = cJSON_Parse(line);
         if (!j) { fprintf(stderr, "bad json\n"); return 2; }
-        const char *id = cJSON_GetObjectItem(j, "id")->valuestring;
+        if (nc == cap) { cap *= 2; hc = realloc(hc, cap * sizeof *hc); }
         cJSON *arr = cJSON_GetObjectItem(j, "bytes");
         size_t n = (size_t)cJSON_GetArraySize(arr);
-        /* exact-size allocation: under ASan any read past the file is reported */
-        uint8_t *b = malloc(n ? n : 1);
+        uint8_t *b = malloc(n ? n : 1);          /* exact size: under ASan any read past the file is reported */
         size_t i = 0;
         for (cJSON *e = arr->child; e; e = e->next) b[i++] = (uint8_t)e->valuedouble;
         cJSON *fix = cJSON_GetObjectItem(j, "fixcrc");
@@ -473,45 +495,70 @@ static int cmd_hostile(const char *cases, const char *workdir, const char *trace
             uint32_t c = nvm_crc32(b + NVM_HEADER_SIZE, (uint32_t)(n - NVM_HEADER_SIZE));
             b[28] = c & 0xFF; b[29] = (c >> 8) & 0xFF; b[30] = (c >> 16) & 0xFF; b[31] = (c >> 24) & 0xFF;
         }
-        char path[4096], errp[4096];
-        snprintf(path, sizeof path, "%s/%s.nvm", workdir, id);
-        snprintf(errp, sizeof errp, "%s/%s.stderr", workdir, id);
+        hc[nc].id = strdup(cJSON_GetObjectItem(j, "id")->valuestring);
+        hc[nc].b = b;
+        hc[nc].n = n;
+        nc++;
+        char path[4096];
+        snprintf(path, sizeof path, "%s/%s.nvm", workdir, hc[nc - 1].id);
         write_all(path, b, n);
+        cJSON_Delete(j);
+    }
+    size_t start = 0;
+    while (start < nc) {
+        int pfd[2];
+        char errp[4096];
+        snprintf(errp, sizeof errp, "%s/worker-%zu.stderr", workdir, start);
+        if (pipe(pfd) != 0) { perror("pipe"); return 2; }
         fflush(stdout);
         pid_t pid = fork();
         if (pid == 0) {
+            close(pfd[0]);
             int fd = open(errp, O_WRONLY | O_CREAT | O_TRUNC, 0644);
             if (fd >= 0) { dup2(fd, 2); close(fd); }
-            alarm(20);
-            NvmModule *m = traced_load(id, "hostile", 0, b, n);
-            if (m) { nvm_module_free(m); _exit(10); }
-            _exit(11);
+            for (size_t k = start; k < nc; k++) {
+                char msg[64];
+                int len = snprintf(msg, sizeof msg, "B %zu\n", k);
+                if (write(pfd[1], msg, (size_t)len) != len) _exit(3);
+                alarm(20);
+                NvmModule *m = traced_load(hc[k].id, "hostile", 0, hc[k].b, hc[k].n);
+                int acc = m != NULL;
+                if (m) nvm_module_free(m);
+                alarm(0);
+                len = snprintf(msg, sizeof msg, "R %zu %d\n", k, acc);
+                if (write(pfd[1], msg, (size_t)len) != len) _exit(3);
+            }
+            _exit(0);
         }
+        close(pfd[1]);
+        FILE *in = fdopen(pfd[0], "r");
+        char l[128];
+        long begun = -1, finished = -1;
+        while (fgets(l, sizeof l, in)) {
+            size_t k; int acc;
+            if (sscanf(l, "B %zu", &k) == 1) begun = (long)k;
+            else if (sscanf(l, "R %zu %d", &k, &acc) == 2) {
+                finished = (long)k;
+                printf("{\"k\":\"hostile\",\"id\":\"%s\",\"outcome\":\"%s\",\"signal\":0,\"exit\":0,\"report\":\"\",\"path\":\"%s/%s.nvm\"}\n",
+                       hc[k].id, acc ? "accept" : "reject", workdir, hc[k].id);
+            }
+        }
+        fclose(in);
         int st = 0;
         waitpid(pid, &st, 0);
-        const char *outcome = "?";
-        int sig = 0;
-        if (WIFEXITED(st)) outcome = WEXITSTATUS(st) == 10 ? "accept" : (WEXITSTATUS(st) == 11 ? "reject" : "exit");
-        else if (WIFSIGNALED(st)) { sig = WTERMSIG(st); outcome = sig == SIGALRM ? "timeout" : "signal"; }
-        char first[240] = "";
-        FILE *ef = fopen(errp, "r");
-        if (ef) {
-            char l[512];
-            while (fgets(l, sizeof l, ef)) {
-                if (strstr(l, "ERROR:") || strstr(l, "runtime error")) {
-                    size_t k = 0;
-                    for (char *q = l; *q && *q != '\n' && k < sizeof first - 1; q++) if (*q != '"' && *q != '\\') first[k++] = *q;
-                    first[k] = 0;
-                    break;
-                }
-            }
-            fclose(ef);
+        if (begun > finished) {                      /* the worker died inside case `begun` */
+            int sig = WIFSIGNALED(st) ? WTERMSIG(st) : 0;
+            char first[240];
+            first_report(errp, first, sizeof first);
+            printf("{\"k\":\"hostile\",\"id\":\"%s\",\"outcome\":\"%s\",\"signal\":%d,\"exit\":%d,\"report\":\"%s\",\"path\":\"%s/%s.nvm\"}\n",
+                   hc[begun].id, sig == SIGALRM ? "timeout" : (sig ? "signal" : "exit"), sig,
+                   WIFEXITED(st) ? WEXITSTATUS(st) : -1, first, workdir, hc[begun].id);
+            start = (size_t)begun + 1;
+        } else {
+            if (!(WIFEXITED(st) && WEXITSTATUS(st) == 0)) { fprintf(stderr, "worker ended abnormally outside a case\n"); return 2; }
+            start = nc;
         }
-        printf("{\"k\":\"hostile\",\"id\":\"%s\",\"outcome\":\"%s\",\"signal\":%d,\"exit\":%d,\"report\":\"%s\",\"path\":\"%s\"}\n",
-               id, outcome, sig, WIFEXITED(st) ? WEXITSTATUS(st) : -1, first, path);
-        if (WIFEXITED(st)) unlink(errp);
-        free(b);
-        cJSON_Delete(j);
+        unlink(errp);
     }
     return 0;
 }
